@@ -96,6 +96,21 @@ def check_surface(case, ctx):
                   "flip_ctrlpts2d", "flip_ctrlpts2d(net, %r) is not the transpose of the %dx%d net (%d rows)" % (kwf, nu, nv, len(t4)))
     t3 = compatibility.flip_ctrlpts2d([[list(p) for p in r] for r in g])
     ctx.check(len(t3) == nv and all(_eq_pts([t3[v][u]], [g[u][v]]) for u in range(nu) for v in range(nv)), "flip_ctrlpts2d", "flip_ctrlpts2d (auto sizes) is not the transpose")
+    # a refused net (sizes that do not fit the degrees) leaves the layout relations of whatever the surface then holds intact
+    pu_, pv_ = d["degree"]
+    if nu != nv and (nv < pu_ + 1 or nu < pv_ + 1):
+        o4 = build.make(d)
+        try:
+            o4.set_ctrlpts([list(q) for q in stored], nv, nu)
+            ctx.label("swapped-sizes-accepted")
+        except Exception:
+            ctx.label("after-a-refused-net")
+            su, sv = build.sizes_of(o4)
+            g4 = o4.ctrlpts2d
+            flat4 = build.stored_points(o4)
+            ctx.check(len(flat4) == su * sv and len(g4) == su and all(len(r) == sv for r in g4) and
+                      all(_eq_pts([g4[u][v]], [flat4[v + sv * u]]) for u in range(su) for v in range(sv)), "layout-after-refused-net",
+                      "after a refused set_ctrlpts the surface reports sizes %r, %d stored points and a %dx%d grid view" % ([su, sv], len(flat4), len(g4), len(g4[0]) if g4 else 0))
     # transpose
     before = build.snapshot(obj)
     T = operations.transpose(obj, inplace=False)
